@@ -127,7 +127,7 @@ func CanonicalForm(p *core.Program, r *core.Report, rule string) {
 				if !ok {
 					return false
 				}
-				if core.RecvTypeName(fn.Type().(*types.Signature)) == "PortSet" && growers[fn.Name()] {
+				if core.RecvTypeName(fn.Type().(*types.Signature)) == "PortSet" && growers[core.RefName(fn)] {
 					// receiver is an entry of the receiver's protocol map (directly or through a local loaded from it)
 					return entryOfProtoMap(info, m, se.X, protoField, recv)
 				}
@@ -221,7 +221,7 @@ func CanonicalForm(p *core.Program, r *core.Report, rule string) {
 			case *ast.AssignStmt:
 				for _, l := range x.Lhs {
 					if f := core.FieldOf(info, l); f == protoField || f == allField {
-						r.Bad(rule+"-encap", fd.Key()+": writes ConnectionSet."+f.Name()+" directly", p.Pos(x.Pos()), "the representation of a connection set is written outside package common: the canonical-form invariant is no longer protected by the package's operations")
+						r.Bad(rule+"-encap", fd.Key()+": writes ConnectionSet."+core.RefName(f)+" directly", p.Pos(x.Pos()), "the representation of a connection set is written outside package common: the canonical-form invariant is no longer protected by the package's operations")
 					}
 					if ix, ok := ast.Unparen(l).(*ast.IndexExpr); ok && core.FieldOf(info, ix.X) == protoField {
 						r.Bad(rule+"-encap", fd.Key()+": stores into ConnectionSet.AllowedProtocols directly", p.Pos(x.Pos()), "the protocol map of a connection set is updated outside package common")
@@ -230,7 +230,7 @@ func CanonicalForm(p *core.Program, r *core.Report, rule string) {
 			case *ast.CompositeLit:
 				if core.TypeIs(info.TypeOf(x), core.PkgCommon, "ConnectionSet") {
 					c := fd.Key() + ": builds a ConnectionSet literal"
-					if fd.Pkg.PkgPath == core.PkgConnlist && fd.Obj.Name() == "GetConnectionSetFromP2PConnection" {
+					if fd.Pkg.PkgPath == core.PkgConnlist && core.RefName(fd.Obj) == "GetConnectionSetFromP2PConnection" {
 						ok := literalCopiesRow(info, x, allField, protoField)
 						r.Check(ok, rule+"-encap", c, p.Pos(x.Pos()), "rebuilds a set from a result row: AllowAll is the row's AllProtocolsAndPorts() and the map is filled from the row's ranges (canonical iff the row is)",
 							"the literal no longer takes AllowAll from the row's AllProtocolsAndPorts(): rebuilt sets are not canonical and equalConns compares them")
@@ -258,7 +258,7 @@ func literalCopiesRow(info *types.Info, cl *ast.CompositeLit, allField, protoFie
 		}
 		if info.ObjectOf(id) == allField {
 			if call, ok := ast.Unparen(kv.Value).(*ast.CallExpr); ok {
-				if fn := core.Callee(info, call); fn != nil && fn.Name() == "AllProtocolsAndPorts" {
+				if fn := core.Callee(info, call); fn != nil && core.RefName(fn) == "AllProtocolsAndPorts" {
 					okAll = true
 				}
 			}
@@ -318,7 +318,7 @@ func growsProtoMap(p *core.Program, fd *core.FuncDecl, protoField *types.Var) bo
 		}
 		if call, ok := n.(*ast.CallExpr); ok {
 			if fn := core.Callee(info, call); fn != nil && fn != fd.Obj && core.RecvTypeName(fn.Type().(*types.Signature)) == "ConnectionSet" {
-				if g := p.ByObj[fn]; g != nil && g != fd && strings.HasPrefix(fn.Name(), "Add") {
+				if g := p.ByObj[fn]; g != nil && g != fd && strings.HasPrefix(core.RefName(fn), "Add") {
 					grows = true
 				}
 			}
